@@ -1,5 +1,5 @@
-(* C13 — concrete reachable states of the faithful model that contradict the property (each was replayed on
-   the implementation: corpus/C13/*.json), and helpers to exhibit reachable states. *)
+(* C13 — concrete reachable states of the model (each history is also a corpus case replayed on the implementation:
+   corpus/C13/*.json), and helpers to exhibit reachable states. *)
 From Coq Require Import List NArith Bool Arith Lia.
 Import ListNotations.
 From AV Require Import Generated.WsSessionGen Model.WsSession Proofs.WsSessionTransport.
@@ -41,23 +41,38 @@ Definition cfgC : config := mkConfig Client true true None 9 None.
 
 Ltac all_tasks := let t := fresh "t" in intro t; do 5 (destruct t as [|t]; [vm_compute; reflexivity|]); vm_compute; reflexivity.
 
-(* server: close(code=1001) from task 1 while task 0 is blocked in receive() *)
-Definition w_close_vs_receive : list (list event) := [[ECall 0 OpRecv]; [ECall 1 (OpClose 1001)]].
-Lemma witness_server_code_1000 :
-  exists s, reach cfgS s /\ finished cfgS s /\ tr_closing s = true /\
-            peer_closes s = [] /\ close_code s = Some ws_close_ok.
+(* ---- the former counterexamples (all repaired in /repo; corpus/C13/fixed_*.json) now end as the property says ---- *)
+
+(* server: close(code=1001) from task 1 while task 0 is blocked in receive(): close() now waits for the peer
+   (fix ee50231); the peer answers 4001 *)
+Definition w_close_vs_receive : list (list event) :=
+  [[ECall 0 OpRecv]; [ECall 1 (OpClose 1001)]; [EPeer (PMsg (MClose 4001))]].
+Lemma witness_server_close_vs_receive_waits :
+  exists s, reach cfgS s /\ finished cfgS s /\ tr_closing s = true /\ sent s = [FClose 1001] /\
+            peer_closes s = [4001] /\ close_code s = Some 4001 /\ t_pc (tasks s 0) = PDone (RMsg MClosing) /\
+            t_pc (tasks s 1) = PDone (RBool true).
 Proof.
   destruct (play cfgS (init cfgS) w_close_vs_receive) as [s|] eqn:E; [|vm_compute in E; discriminate].
   exists s. split; [eapply reach_play; [apply reach_init|exact E]|].
   vm_compute in E. inversion E; subst. clear E.
   repeat split; try reflexivity. all_tasks.
 Qed.
+(* ... and with a silent peer it ends with 1006 after the close timeout *)
+Lemma witness_server_close_vs_receive_timeout :
+  exists s, reach cfgS s /\ finished cfgS s /\ tr_closing s = true /\ peer_closes s = [] /\
+            close_code s = Some ws_close_abnormal.
+Proof.
+  destruct (play cfgS (init cfgS) [[ECall 0 OpRecv]; [ECall 1 (OpClose 1001)]; [EAdvance 9]]) as [s|] eqn:E; [|vm_compute in E; discriminate].
+  exists s. split; [eapply reach_play; [apply reach_init|exact E]|].
+  vm_compute in E. inversion E; subst. clear E.
+  repeat split; try reflexivity. all_tasks.
+Qed.
 
-(* server: close() and connection loss in the same tick while receive() is blocked *)
+(* server: close() and connection loss in the same tick while receive() is blocked: 1006 (fix ee50231) *)
 Definition w_close_eof : list (list event) := [[ECall 0 OpRecv]; [ECall 1 (OpClose 1000); EDrop]].
-Lemma witness_server_eof_code_1000 :
-  exists s, reach cfgS s /\ finished cfgS s /\ lost s = true /\
-            peer_closes s = [] /\ sent s = [] /\ close_code s = Some ws_close_ok.
+Lemma witness_server_close_racing_eof :
+  exists s, reach cfgS s /\ finished cfgS s /\ lost s = true /\ peer_closes s = [] /\ sent s = [] /\
+            close_code s = Some ws_close_abnormal.
 Proof.
   destruct (play cfgS (init cfgS) w_close_eof) as [s|] eqn:E; [|vm_compute in E; discriminate].
   exists s. split; [eapply reach_play; [apply reach_init|exact E]|].
@@ -65,10 +80,11 @@ Proof.
   repeat split; try reflexivity. all_tasks.
 Qed.
 
-(* server: close() cancelled while it waits for the blocked receive() to wake *)
+(* server: close() cancelled while it waits for the blocked receive() to wake: transport closed, 1006 (fix 6837d66) *)
 Definition w_cancel_cw : list (list event) := [[ECall 0 OpRecv]; [ECall 1 (OpClose 1000); ERun; ECancel 1]].
-Lemma witness_server_transport_open :
-  exists s, reach cfgS s /\ finished cfgS s /\ ready s = [] /\ tr_closing s = false.
+Lemma witness_server_cancelled_close :
+  exists s, reach cfgS s /\ finished cfgS s /\ ready s = [] /\ tr_closing s = true /\
+            close_code s = Some ws_close_abnormal /\ t_pc (tasks s 1) = PDone XCancelled.
 Proof.
   destruct (play cfgS (init cfgS) w_cancel_cw) as [s|] eqn:E; [|vm_compute in E; discriminate].
   exists s. split; [eapply reach_play; [apply reach_init|exact E]|].
@@ -76,11 +92,11 @@ Proof.
   repeat split; try reflexivity. all_tasks.
 Qed.
 
-(* client: a malformed frame while receive() is blocked *)
+(* client: a malformed frame while receive() is blocked: our close frame carries 1002, the report is 1006 (fix 2731c52) *)
 Definition w_client_bad : list (list event) := [[ECall 0 OpRecv]; [EPeer (PBad ws_close_protocol_error)]].
-Lemma witness_client_error_code :
-  exists s, reach cfgC s /\ finished cfgC s /\ tr_closing s = true /\
-            peer_closes s = [] /\ close_code s = Some ws_close_protocol_error.
+Lemma witness_client_protocol_error :
+  exists s, reach cfgC s /\ finished cfgC s /\ tr_closing s = true /\ sent s = [FClose ws_close_protocol_error] /\
+            peer_closes s = [] /\ close_code s = Some ws_close_abnormal.
 Proof.
   destruct (play cfgC (init cfgC) w_client_bad) as [s|] eqn:E; [|vm_compute in E; discriminate].
   exists s. split; [eapply reach_play; [apply reach_init|exact E]|].
@@ -135,36 +151,11 @@ Proof.
   repeat split; try reflexivity. all_tasks.
 Qed.
 
-(* ---- the full statements that the faithful model refutes ------------------------------------------ *)
 Definition code_ok (s : state) : Prop :=
   close_code s = Some ws_close_abnormal \/ exists x, close_code s = Some x /\ In x (peer_closes s).
 
-Lemma close_code_refuted_server :
-  ~ (forall s, reach cfgS s -> finished cfgS s -> code_ok s).
-Proof.
-  intros H. destruct witness_server_code_1000 as (s & R & F & _ & P & C).
-  destruct (H s R F) as [E|(x & E & I)].
-  - rewrite C in E. vm_compute in E. discriminate.
-  - rewrite P in I. contradiction.
-Qed.
-Lemma close_code_refuted_client :
-  ~ (forall s, reach cfgC s -> finished cfgC s -> code_ok s).
-Proof.
-  intros H. destruct witness_client_error_code as (s & R & F & _ & P & C).
-  destruct (H s R F) as [E|(x & E & I)].
-  - rewrite C in E. vm_compute in E. discriminate.
-  - rewrite P in I. contradiction.
-Qed.
-Lemma close_code_refuted : ~ (forall c s, reach c s -> finished c s -> code_ok s).
-Proof. intros H. apply close_code_refuted_server. intros s. apply H. Qed.
-
-Lemma transport_closed_refuted : ~ (forall c s, reach c s -> finished c s -> tr_closing s = true).
-Proof.
-  intros H. destruct witness_server_transport_open as (s & R & F & _ & T). rewrite (H _ s R F) in T. discriminate.
-Qed.
-
-Lemma transport_closed_partial c s : reach c s -> finished c s -> cw_leak s = false -> tr_closing s = true.
-Proof. intros R [Hc Hn] Hl. eapply closed_implies_transport_closed; eauto. Qed.
+Lemma transport_closed_full c s : reach c s -> finished c s -> tr_closing s = true.
+Proof. intros R [Hc Hn]. eapply closed_implies_transport_closed; eauto. Qed.
 
 (* a blocked receive() that is the registered waiter of the queue; a blocked close() with its timer armed *)
 Lemma witness_blocked_receive :
@@ -198,14 +189,25 @@ Proof.
   vm_compute in E. inversion E; subst. clear E. repeat split; reflexivity.
 Qed.
 
-(* client: two close() calls racing a blocked receive(); the handshake completes with the peer's code 3000, then the
-   late receive() hits EofStream (its wake-up message was consumed by the second close()) and stores 1000 *)
-Lemma witness_client_eof_overwrites_peer_code :
+(* client: two close() calls racing a blocked receive(); the handshake completes with the peer's code 3000 and the late
+   receive() (its wake-up message was consumed by the second close()) no longer overwrites it (fix 0ea8ce0) *)
+Lemma witness_client_two_closes_keep_peer_code :
   exists s, reach cfgC s /\ finished cfgC s /\ tr_closing s = true /\ sent s = [FClose 1001] /\
-            peer_closes s = [3000] /\ close_code s = Some ws_close_ok.
+            peer_closes s = [3000] /\ close_code s = Some 3000.
 Proof.
   destruct (play cfgC (init cfgC)
               [[ECall 0 OpRecv]; [ECall 1 (OpClose 1001); EPeerQ (PMsg (MClose 3000)); ECall 2 (OpClose 1001)]])
+    as [s|] eqn:E; [|vm_compute in E; discriminate].
+  exists s. split; [eapply reach_play; [apply reach_init|exact E]|].
+  vm_compute in E. inversion E; subst. clear E. repeat split; try reflexivity. all_tasks.
+Qed.
+(* ... and when receive() takes the peer's close frame the second close() returns normally with that code *)
+Lemma witness_client_receive_takes_peer_close :
+  exists s, reach cfgC s /\ finished cfgC s /\ tr_closing s = true /\ peer_closes s = [3000] /\ close_code s = Some 3000 /\
+            t_pc (tasks s 0) = PDone (RMsg (MClose 3000)).
+Proof.
+  destruct (play cfgC (init cfgC)
+              [[ECall 0 OpRecv]; [ECall 1 (OpClose 3000); ECall 3 (OpClose 4001); EPeerQ (PMsg (MClose 3000))]])
     as [s|] eqn:E; [|vm_compute in E; discriminate].
   exists s. split; [eapply reach_play; [apply reach_init|exact E]|].
   vm_compute in E. inversion E; subst. clear E. repeat split; try reflexivity. all_tasks.
